@@ -20,7 +20,8 @@ in particular NOT `Err.other _` (a foreign exception class) and NOT `Err.hang` (
     fails with `JaqalError` only; `TraceSerializer` does not raise on a discovered trace (`C03_serialize`) and yields only gates
     of the program, so the gate table is never left (`segment_gks`, `skeleton_ids`); the walk of `execute()` terminates without
     raising on every discovered trace list with the static fuel `fuelBound` (`C08_terminates`): `execute_class`.
-* **`C16_pos`** — a `JaqalParseError` of `runModel` is the parser's, and its position is `("EOF", 0)` or the line and column of a
+* **`C16_pos_partial`** (same hypotheses; `C16_pos_parse` for the parsing entry point needs none; full statement `C16_pos_full`) —
+  a `JaqalParseError` of `runModel` is the parser's, and its position is `("EOF", 0)` or the line and column of a
   token start of the text / of the character the lexer refuses (`C02_error_pos_partial`).
 * **`C16_deterministic`**, `C16_history_perm`, `C16_history_interleave` — the model is a function of the text: the outcomes of a
   history of calls are the per-call outcomes, whatever the order and whatever failing calls are interleaved.  (Trivial in Lean;
@@ -56,6 +57,11 @@ def FillInClass (cfg : Config) (ov : List (String × Num)) (txt : String) : Prop
 def BuiltWellFormed (cfg : Config) (ov : List (String × Num)) (txt : String) : Prop :=
   ∀ c c1 c2, Pipeline.parseProgram cfg txt = .ok c → ExpandSubcircuits.expandSubcircuits none none c = .ok c1 →
     FillIn.fillInLet ov c1 = .ok c2 → ExpandMacros.WellFormed c2 = true
+
+/-- the driver op `well_formed` (which the differential test evaluates on every generated program) decides the conclusion of
+`BuiltWellFormed` -/
+theorem C16_well_formed_op (c : Circuit) : WF.wellFormed c = true ↔ ExpandMacros.WellFormed c = true := by
+  rw [WF.wellFormed_eq]
 
 /-- the expanded circuit satisfies `ExecClass` -/
 def ExecClassOf (cfg : Config) (ov : List (String × Num)) (txt : String) : Prop :=
@@ -121,7 +127,7 @@ theorem parseText_eof_col {txt : String} {c : Nat} (h : parseText txt = .error (
 
 /-- **C16 (position).** A syntax error of the pipeline — including input that ends too early — is the parser's error, and it
 carries `("EOF", 0)` or the line and column of a place of THIS text where a token starts or where lexing stops. -/
-theorem C16_pos (cfg : Config) (ov : List (String × Num)) (txt : String) (l : Option Nat) (c : Nat)
+theorem C16_pos_partial (cfg : Config) (ov : List (String × Num)) (txt : String) (l : Option Nat) (c : Nat)
     (h : runModel cfg ov txt = .error (.parse l c)) (hf : FillInClass cfg ov txt) (hw : BuiltWellFormed cfg ov txt)
     (hx : ExecClassOf cfg ov txt) :
     parseText txt = .error (.parseError l c) ∧
@@ -143,6 +149,14 @@ theorem C16_pos (cfg : Config) (ov : List (String × Num)) (txt : String) (l : O
   cases l with
   | none => exact Or.inl ⟨rfl, parseText_eof_col ht⟩
   | some l' => exact Or.inr ⟨l', rfl, Jaqal.C02.C02_error_pos_partial ht⟩
+
+/-- The full statement of the position half, NOT proved: `C16_pos_partial` without its hypotheses.  They are only used to exclude
+that a LATER stage answers `Err.parse` (`expand_subcircuits`, `expand_macros` and the executing stage provably do not; for
+`fill_in_let` this is `FillInClass`). -/
+def C16_pos_full : Prop :=
+  ∀ (cfg : Config) (ov : List (String × Num)) (txt : String) (l : Option Nat) (c : Nat),
+    runModel cfg ov txt = .error (.parse l c) →
+    parseText txt = .error (.parseError l c) ∧ ((l = none ∧ c = 0) ∨ ∃ l', l = some l' ∧ Jaqal.C02.IsTokenPos txt l' c)
 
 /-- the position half needs no hypothesis when stated for the parsing entry point alone -/
 theorem C16_pos_parse (cfg : Config) (txt : String) (l : Option Nat) (c : Nat)
@@ -188,12 +202,134 @@ def gRG : GateDef := { name := "RG", tag := .native, params := [("r", .register)
 def cfgX : Config := { natives := some [gX, gPrep, gMeas] }
 def cfgRG : Config := { natives := some [gRG, gPrep, gMeas] }
 
+/-! #### The hypotheses of `C16_total_partial` are decidable for a given text, and hold for concrete programs -/
+
+def isGoodB : Err → Bool
+  | .jaqal _ => true
+  | .importErr => true
+  | _ => false
+
+theorem isGoodB_good {e : Err} (h : isGoodB e = true) : Good e := by
+  cases e <;> simp [isGoodB] at h
+  · exact Good.jaqal _
+  · exact Or.inr rfl
+
+def clsB {α : Type} (m : M α) : Bool :=
+  match m with
+  | .error e => isGoodB e
+  | .ok _ => true
+
+theorem clsB_cls {α : Type} {m : M α} (h : clsB m = true) : Cls Good m := by
+  intro e he
+  subst he
+  exact isGoodB_good h
+
+def sizeIntB (x : Circuit) : Bool :=
+  match x.registers.filter isFundamental with
+  | [.regF _ (.int k)] => decide (0 ≤ k)
+  | [.regF _ _] => false
+  | _ => true
+
+theorem sizeIntB_sizeInt {x : Circuit} (h : sizeIntB x = true) : SizeInt x := by
+  intro n s hf
+  unfold sizeIntB at h
+  rw [hf] at h
+  cases s <;> simp at h
+  exact ⟨_, rfl, h⟩
+
+def execB (x : Circuit) : Bool :=
+  clsB (skeleton x) && clsB (UsedQubits.checkDisjoint x) && sizeIntB x &&
+  (match skeleton x with
+   | .ok (_, tbl) => tbl.all (fun g => clsB (gateToken x.natives g.1 g.2.2))
+   | .error _ => true)
+
+theorem execB_execClass {x : Circuit} (h : execB x = true) : ExecClass x := by
+  simp only [execB, Bool.and_eq_true] at h
+  obtain ⟨⟨⟨h1, h2⟩, h3⟩, h4⟩ := h
+  refine ⟨clsB_cls h1, clsB_cls h2, sizeIntB_sizeInt h3, ?_⟩
+  intro body tbl hs g hg
+  rw [hs] at h4
+  exact clsB_cls (List.all_eq_true.1 h4 g hg)
+
+/-- the three hypotheses, evaluated on one text -/
+def stageB (cfg : Config) (ov : List (String × Num)) (txt : String) : Bool :=
+  match Pipeline.parseProgram cfg txt with
+  | .error _ => true
+  | .ok c =>
+    match ExpandSubcircuits.expandSubcircuits none none c with
+    | .error _ => true
+    | .ok c1 =>
+      match FillIn.fillInLet ov c1 with
+      | .error e => isGoodB e
+      | .ok c2 =>
+        ExpandMacros.WellFormed c2 &&
+        (match ExpandMacros.expandMacros false c2 with
+         | .error _ => true
+         | .ok x => execB x)
+
+theorem stageB_hyps {cfg : Config} {ov : List (String × Num)} {txt : String} (h : stageB cfg ov txt = true) :
+    FillInClass cfg ov txt ∧ BuiltWellFormed cfg ov txt ∧ ExecClassOf cfg ov txt := by
+  refine ⟨?_, ?_, ?_⟩
+  · intro c c1 hc hc1 e he
+    simp only [stageB, hc, hc1, he] at h
+    exact isGoodB_good h
+  · intro c c1 c2 hc hc1 hc2
+    simp only [stageB, hc, hc1, hc2, Bool.and_eq_true] at h
+    exact h.1
+  · intro c x hc hx
+    unfold expandAll at hx
+    obtain ⟨c1, hc1, hx⟩ := bind_ok hx
+    obtain ⟨c2, hc2, hx⟩ := bind_ok hx
+    simp only [stageB, hc, hc1, hc2, hx, Bool.and_eq_true] at h
+    exact execB_execClass h.2
+
+/-- `C16_total_partial` with its hypotheses replaced by their evaluation on the text at hand -/
+theorem C16_total_checked (cfg : Config) (ov : List (String × Num)) (txt : String) (h : stageB cfg ov txt = true) :
+    ∀ e, runModel cfg ov txt = .error e → Good16 e :=
+  let ⟨hf, hw, hx⟩ := stageB_hyps h
+  C16_total_partial cfg ov txt hf hw hx
+
+/-- non-vacuity of `C16_total_partial` / `C16_pos_partial`: the three hypotheses hold for `let n 2; register q[n]; map a q[0:n];
+macro m x y { < X x | X y > }; loop 2 { subcircuit n { m a[0] q[1] } }; prepare_all; X a[1]; measure_all` (with an override) … -/
+example : stageB cfgX [("n", .int 2)]
+    "let n 2\nregister q[n]\nmap a q[0:n]\nmacro m x y { < X x | X y > }\nloop 2 { subcircuit n { m a[0] q[1] } }\nprepare_all; X a[1]; measure_all\n"
+    = true := by decide +kernel
+
+/-- … and fail, as they must, for the register-taking gate of the finding below -/
+example : stageB cfgRG [] "register q[2]\nprepare_all\nRG q\nmeasure_all\n" = false := by decide +kernel
+
+/-- a program that runs: one subcircuit, visited twice -/
+example : (match runModel cfgX [] "register q[2]\nloop 2 { prepare_all; X q[1]; measure_all }\n" with
+  | .ok s => s.subcircuits == 1 && s.visits == [0, 0] | _ => false) = true := by decide +kernel
+
+/-- failures of the stages, each `Good16`: a truncated text (`("EOF", 0)`), an illegal character (line 1, column 7), a gate
+outside a subcircuit (JaqalError of the executing stage), a pulse module that cannot be found (ImportError) -/
+example : (match runModel cfgX [] "register q[2]\nprepare_all; X q[1]; loop 2 {" with
+  | .error (.parse none 0) => true | _ => false) = true := by decide +kernel
+example : (match runModel cfgX [] "let x $" with
+  | .error (.parse (some l) c) => l == 1 && c == 7 | _ => false) = true := by decide +kernel
+example : (match runModel cfgX [] "register q[2]\nX q[1]\n" with | .error (.jaqal _) => true | _ => false) = true := by
+  decide +kernel
+example : (match runModel { cfgX with autoload := true } [] "from nosuch.mod usepulses *\nregister q[2]\n" with
+  | .error .importErr => true | _ => false) = true := by decide +kernel
+
+/-- **Finding.** With a gate set in which a gate that has a unitary takes a register, a well-formed program makes the emulator
+raise `TypeError` (`Register.resolve_qubit()` is called without its index, `emulator/unitary.py`): the totality statement does
+not hold for arbitrary gate sets (hence `EmulableNatives` in `C16_total_full`, and `ExecClassOf` fails for this program). -/
+theorem C16_register_gate_typeerror :
+    (match runModel cfgRG [] "register q[2]\nprepare_all\nRG q\nmeasure_all\n" with
+     | .error (.other "TypeError") => true | _ => false) = true := by decide +kernel
+
 end Jaqal.RunModel
 
 #print axioms Jaqal.RunModel.C16_total_partial
 #print axioms Jaqal.RunModel.C16_total_parse
-#print axioms Jaqal.RunModel.C16_pos
+#print axioms Jaqal.RunModel.C16_pos_partial
 #print axioms Jaqal.RunModel.C16_pos_parse
 #print axioms Jaqal.RunModel.C16_deterministic
 #print axioms Jaqal.RunModel.C16_history_perm
 #print axioms Jaqal.RunModel.C16_history_interleave
+#print axioms Jaqal.RunModel.C16_register_gate_typeerror
+#print axioms Jaqal.RunModel.C16_total_checked
+#print axioms Jaqal.RunModel.C16_well_formed_op
+#print axioms Jaqal.RunModel.C16_no_crash_no_hang
